@@ -24,6 +24,9 @@ func init() {
 				f.SiblingHeavy, f.AffixHeavy, f.MaxLayers = true, true, 4
 			}
 			t := genTree(r, f)
+			if r.Intn(5) == 0 {
+				t.addRBACCluster(r, r.Intn(len(t.Layers)))
+			}
 			addGenerators(r, t)
 			if len(t.Edges) == 0 {
 				o.note("no-edges", cs)
@@ -45,7 +48,7 @@ func init() {
 					continue // C02's business (resource lost or duplicated)
 				}
 				// cross-namespace after the build is not a reference any more (user error, outside the domain)
-				if !b.clusterScoped() && t.predictedNS(a) != t.predictedNS(b) {
+				if !e.Subject && !b.clusterScoped() && t.predictedNS(a) != t.predictedNS(b) {
 					continue
 				}
 				// the written name must denote ONE resource at every layer (property domain: unambiguous references):
@@ -57,6 +60,9 @@ func init() {
 					for _, x := range t.Res {
 						if x == b || x.Kind != b.Kind {
 							continue
+						}
+						if e.Subject && t.predictedNS(x) != t.predictedNS(b) && x.NS != b.NS {
+							continue // a subject names its account together with the namespace: accounts elsewhere do not compete
 						}
 						for n := range t.chainNames(x) {
 							if bn[n] {
